@@ -240,10 +240,36 @@ func (m *Model) RunOwn(s *Sink, rule string) {
 						// the store sits in a helper that fills the placeholders for a use handed in by its caller: the
 						// use the slot body comes from (the root of `X.Slots[i].Body`) must be one without a program there
 						// the uses the slot body may come from: the roots X of `X.Slots[i].Body`, through parameters to the callers
-						var uses []ssa.Value
+						type useAt struct {
+							v  ssa.Value
+							at *ssa.BasicBlock // where "this use has no program yet" must hold: the store's block, or the call site the value came through
+						}
+						var uses []useAt
 						lost := false
-						var findUses func(v ssa.Value, depth int)
-						findUses = func(v ssa.Value, depth int) {
+						// paramArgs: the arguments a parameter stands for, each with the block of its call site
+						paramArgs := func(x *ssa.Parameter) []useAt {
+							h := x.Parent()
+							idx := -1
+							for i, q := range h.Params {
+								if q == x {
+									idx = i
+								}
+							}
+							node := m.CG.Nodes[h]
+							if idx < 0 || node == nil {
+								return nil
+							}
+							var out []useAt
+							for _, e := range node.In {
+								if e.Site == nil || e.Site.Common().StaticCallee() != h || idx >= len(e.Site.Common().Args) {
+									return nil
+								}
+								out = append(out, useAt{e.Site.Common().Args[idx], e.Site.Block()})
+							}
+							return out
+						}
+						var findUses func(v ssa.Value, at *ssa.BasicBlock, depth int)
+						findUses = func(v ssa.Value, at *ssa.BasicBlock, depth int) {
 							cur := stripIface(v)
 							for d := 0; d < 10; d++ {
 								switch x := cur.(type) {
@@ -253,7 +279,7 @@ func (m *Model) RunOwn(s *Sink, rule string) {
 									cur = x.X
 								case *ssa.FieldAddr:
 									if fieldName(x.X.Type(), x.Field) == "Slots" {
-										uses = append(uses, x.X)
+										uses = append(uses, useAt{x.X, at})
 										return
 									}
 									cur = x.X
@@ -264,17 +290,13 @@ func (m *Model) RunOwn(s *Sink, rule string) {
 								case *ssa.Range:
 									cur = x.X
 								case *ssa.Parameter:
-									rs := m.resolveUp(x, nil, 0)
+									rs := paramArgs(x)
 									if depth > 3 || len(rs) == 0 {
 										lost = true
 										return
 									}
 									for _, r := range rs {
-										if _, still := r.(*ssa.Parameter); still {
-											lost = true
-											continue
-										}
-										findUses(r, depth+1)
+										findUses(r.v, r.at, depth+1)
 									}
 									return
 								default:
@@ -284,12 +306,15 @@ func (m *Model) RunOwn(s *Sink, rule string) {
 							}
 							lost = true
 						}
-						findUses(st.Val, 0)
-						useOK := func(r ssa.Value) bool {
-							if hi, isInstr := r.(ssa.Instruction); isInstr && blockNilFact(hi.Block(), r) {
+						findUses(st.Val, b, 0)
+						useOK := func(u useAt) bool {
+							if blockNilFact(u.at, u.v) {
 								return true
 							}
-							if c, isC := r.(*ssa.Call); isC && c.Call.StaticCallee() != nil && c.Call.StaticCallee().Blocks != nil {
+							if hi, isInstr := u.v.(ssa.Instruction); isInstr && blockNilFact(hi.Block(), u.v) {
+								return true
+							}
+							if c, isC := u.v.(*ssa.Call); isC && c.Call.StaticCallee() != nil && c.Call.StaticCallee().Blocks != nil {
 								allRet, nRet := true, 0
 								for _, hb := range c.Call.StaticCallee().Blocks {
 									ret, isRet := hb.Instrs[len(hb.Instrs)-1].(*ssa.Return)
@@ -307,8 +332,8 @@ func (m *Model) RunOwn(s *Sink, rule string) {
 						}
 						all, n := !lost, 0
 						for _, u := range uses {
-							if par, isPar := u.(*ssa.Parameter); isPar {
-								rs := m.resolveUp(par, nil, 0)
+							if par, isPar := u.v.(*ssa.Parameter); isPar {
+								rs := paramArgs(par)
 								if len(rs) == 0 {
 									all = false
 								}
